@@ -91,3 +91,126 @@ Example C07_headers_ex :
   PacketHeaders.from_ether_type 35045 [0;4;0;0;0;1; 129;0; 1;2; 170;187;204;221]
   = Err (ELen (mkLenError 4 2 LsSlice LyVlanHeader 8)).
 Proof. vm_compute; reflexivity. Qed.
+
+(* ==== audit round 1 follow-up ==========================================================
+   (1) The clause "required_len > len for missing data and required_len < len for oversized
+   data": proved ABOUT the reference decoder for every byte string and all four entry points
+   (Parse/WireSpecFacts.v), then transferred to the model of SlicedPacket (through the
+   refinement theorems behind C07_from_X) and of PacketHeaders (through C07_headers; inside
+   the class F11 the record of from_ip_slice is computed directly, so no exclusion is left).
+   `len_direction e`: required > len, except for the two rules of the reference decoder that
+   reject OVERSIZED data: an ICMPv4 timestamp / timestamp reply message that is not exactly
+   20 bytes long (required 20; len is anything >= 8 other than 20, so both directions occur),
+   and an ICMPv6 message longer than 2^32-1 bytes (required 2^32-1 < len).
+   (2) `c07_truthful m s` is `True` when m is `VBug`; the C07_from_X_strong theorems conjoin
+   it with "the model result is never Bug". *)
+From EP Require Import Parse.WireSpecFacts Parse.StrictFacts Parse.HdrErrFacts.
+
+(* the predicate, spelled out *)
+Theorem C07_len_direction_means : forall e,
+  len_direction e <->
+  match le_layer e with
+  | LyIcmpv4Timestamp | LyIcmpv4TimestampReply =>
+      le_required e = 20 /\ 8 <= le_len e /\ le_len e <> 20
+  | LyIcmpv6 =>
+      (le_required e = 8 /\ le_len e < 8) \/
+      (le_required e = 4294967295 /\ 4294967295 < le_len e)
+  | _ => le_len e < le_required e
+  end.
+Proof. exact (fun e => iff_refl _). Qed.
+Print Assumptions C07_len_direction_means.
+
+(* ... in the words of the property: missing data (required > len) or oversized data
+   (required < len), the latter only for the two oversized rules; never required = len *)
+Theorem C07_len_direction_clause : forall e, len_direction e ->
+  (le_len e < le_required e \/
+   (le_required e < le_len e /\
+    (((le_layer e = LyIcmpv4Timestamp \/ le_layer e = LyIcmpv4TimestampReply) /\ le_required e = 20) \/
+     (le_layer e = LyIcmpv6 /\ le_required e = 4294967295)))) /\
+  le_required e <> le_len e.
+Proof. exact len_direction_meaning. Qed.
+Print Assumptions C07_len_direction_clause.
+
+(* the reference decoder, all byte strings, all four entry points *)
+Theorem C07_len_error_direction_reference : forall bs et e,
+  (wire_ethernet bs = VErr (ELen e) -> len_direction e) /\
+  (wire_linux_sll bs = VErr (ELen e) -> len_direction e) /\
+  (wire_ether_type bs et = VErr (ELen e) -> len_direction e) /\
+  (wire_from_ip bs = VErr (ELen e) -> len_direction e).
+Proof. exact wire_len_direction. Qed.
+Print Assumptions C07_len_error_direction_reference.
+
+(* the model of SlicedPacket *)
+Theorem C07_len_error_direction_from_ethernet : forall bs e, bytes_ok bs ->
+  SlicedPacket.from_ethernet bs = Err (ELen e) -> len_direction e.
+Proof. exact (fun bs e H => proj1 (strict_len_direction bs 0 H e)). Qed.
+Print Assumptions C07_len_error_direction_from_ethernet.
+
+Theorem C07_len_error_direction_from_linux_sll : forall bs e, bytes_ok bs ->
+  SlicedPacket.from_linux_sll bs = Err (ELen e) -> len_direction e.
+Proof. exact (fun bs e H => proj1 (proj2 (strict_len_direction bs 0 H e))). Qed.
+Print Assumptions C07_len_error_direction_from_linux_sll.
+
+Theorem C07_len_error_direction_from_ether_type : forall bs et e, bytes_ok bs ->
+  SlicedPacket.from_ether_type et bs = Err (ELen e) -> len_direction e.
+Proof. exact (fun bs et e H => proj1 (proj2 (proj2 (strict_len_direction bs et H e)))). Qed.
+Print Assumptions C07_len_error_direction_from_ether_type.
+
+Theorem C07_len_error_direction_from_ip : forall bs e, bytes_ok bs ->
+  SlicedPacket.from_ip bs = Err (ELen e) -> len_direction e.
+Proof. exact (fun bs e H => proj2 (proj2 (proj2 (strict_len_direction bs 0 H e)))). Qed.
+Print Assumptions C07_len_error_direction_from_ip.
+
+(* the model of PacketHeaders (no F11 exclusion) *)
+Theorem C07_len_error_direction_headers : forall bs et, bytes_ok bs ->
+  (forall e, PacketHeaders.from_ethernet_slice bs = Err (ELen e) -> len_direction e) /\
+  (forall e, PacketHeaders.from_ether_type et bs = Err (ELen e) -> len_direction e) /\
+  (forall e, PacketHeaders.from_ip_slice bs = Err (ELen e) -> len_direction e).
+Proof. exact headers_len_direction. Qed.
+Print Assumptions C07_len_error_direction_headers.
+
+(* truthful AND never Bug (the VBug arm of c07_truthful is True) *)
+Theorem C07_from_ethernet_strong : forall bs, bytes_ok bs ->
+  c07_truthful (vres_of (SlicedPacket.from_ethernet bs)) (wire_ethernet bs) /\
+  forall b, vres_of (SlicedPacket.from_ethernet bs) <> VBug b.
+Proof. exact (fun bs H => proj1 (strict_truthful_strong bs 0 H)). Qed.
+Print Assumptions C07_from_ethernet_strong.
+
+Theorem C07_from_linux_sll_strong : forall bs, bytes_ok bs ->
+  c07_truthful (vres_of (SlicedPacket.from_linux_sll bs)) (wire_linux_sll bs) /\
+  forall b, vres_of (SlicedPacket.from_linux_sll bs) <> VBug b.
+Proof. exact (fun bs H => proj1 (proj2 (strict_truthful_strong bs 0 H))). Qed.
+Print Assumptions C07_from_linux_sll_strong.
+
+Theorem C07_from_ether_type_strong : forall bs et, bytes_ok bs ->
+  c07_truthful (vres_of (SlicedPacket.from_ether_type et bs)) (wire_ether_type bs et) /\
+  forall b, vres_of (SlicedPacket.from_ether_type et bs) <> VBug b.
+Proof. exact (fun bs et H => proj1 (proj2 (proj2 (strict_truthful_strong bs et H)))). Qed.
+Print Assumptions C07_from_ether_type_strong.
+
+Theorem C07_from_ip_strong : forall bs, bytes_ok bs ->
+  c07_truthful (vres_of (SlicedPacket.from_ip bs)) (wire_from_ip bs) /\
+  forall b, vres_of (SlicedPacket.from_ip bs) <> VBug b.
+Proof. exact (fun bs H => proj2 (proj2 (proj2 (strict_truthful_strong bs 0 H)))). Qed.
+Print Assumptions C07_from_ip_strong.
+
+(* non-vacuity: IPv4 carrying an ICMP timestamp request of 24 bytes (oversized, required 20
+   < len 24) and of 12 bytes (missing, required 20 > len 12); model = reference decoder *)
+Definition ex_ts (n : nat) : bytes :=
+  [69;0;0;20 + N.of_nat n; 0;0;0;0; 64;1;0;0; 1;2;3;4; 5;6;7;8] ++ [13;0;0;0] ++ repeat 0 (n - 4).
+Example C07_direction_ex :
+  bytes_ok (ex_ts 24) /\
+  SlicedPacket.from_ip (ex_ts 24) =
+    Err (ELen (mkLenError 20 24 LsIpv4HeaderTotalLen LyIcmpv4Timestamp 20)) /\
+  wire_from_ip (ex_ts 24) =
+    VErr (ELen (mkLenError 20 24 LsIpv4HeaderTotalLen LyIcmpv4Timestamp 20)) /\
+  SlicedPacket.from_ip (ex_ts 12) =
+    Err (ELen (mkLenError 20 12 LsIpv4HeaderTotalLen LyIcmpv4Timestamp 20)) /\
+  PacketHeaders.from_ip_slice (ex_ts 24) =
+    Err (ELen (mkLenError 20 24 LsIpv4HeaderTotalLen LyIcmpv4Timestamp 20)) /\
+  classify (ex_ts 24) (ELen (mkLenError 20 24 LsIpv4HeaderTotalLen LyIcmpv4Timestamp 20))
+    = Some EcIcmpv4TimestampSize.
+Proof.
+  split; [apply bytes_okb_spec; vm_compute; reflexivity|].
+  repeat split; vm_compute; reflexivity.
+Qed.
